@@ -143,7 +143,15 @@ def parse_case(line):
 
     def b(x):
         return b"" if x == "-" else bytes.fromhex(x)
-    while i < len(t) and t[i] in ("R", "D"):
+    while i < len(t) and t[i] in ("R", "D", "U", "P", "M"):
+        if t[i] == "M":
+            ops.append(("M", int(t[i + 1])))
+            i += 2
+            continue
+        if t[i] in ("U", "P"):
+            ops.append((t[i], None))
+            i += 1
+            continue
         if t[i] == "D":
             ops.append(("D", b(t[i + 1])))
             i += 2
@@ -280,14 +288,14 @@ def shrink_case(model, drv, line, bad):
 def gen_cases(run, r):
     quick = run.tier == "quick"
     lines, kinds = [], []
-    ntab = 160 if quick else 1500
+    ntab = 150 if quick else 1200
     nfil = 10 if quick else 14
     all_limit = 170 if quick else 330
     for ti in range(ntab):
         ops = gen_link.gen_table(r)
         tbl = gen_link.table_of_ops(ops)
         seen = set()
-        for fi in range(nfil):
+        for fi in range(nfil if tbl else 3):
             kind, q = gen_link.gen_filter(r, ops) if fi else ("none", None)
             if (kind, q) in seen:
                 continue
@@ -299,7 +307,7 @@ def gen_cases(run, r):
                 lines.append(gen_link.case_line("wk", ops, q, gen_link.boundary_windows(r, ops, q)))
             kinds.append(kind)
         # GET /.well-known/core through a server endpoint, with and without block mode
-        for k in range(2 if quick else 4):
+        for k in range(3 if quick else 5):
             kind, q = gen_link.gen_filter(r, ops) if k else ("none", None)
             if q is not None and len(q) > 200:
                 continue
@@ -313,7 +321,7 @@ def gen_cases(run, r):
             szx = [z for z in range(7) if L <= 600 or z >= 2]
             # an application resource registered under .well-known/core takes the request itself
             # (the built-in handler is not called): not part of the GET cases
-            gops = [o for o in ops if o[1] != gen_link.WK]
+            gops = [o for o in ops if o[1] != gen_link.WK and o[0] in ("R", "D")]
             t = ["get", str(mode)] + gen_link.ops_tokens(gops) + ["F", "~" if q is None else gen_link.tok(q)]
             if q is not None and r.random() < 0.12:
                 t += ["F", gen_link.tok(r.choice([b"if=x", b"a", b"rt=temp*", b"&", b"x=%41"]))]
@@ -327,6 +335,15 @@ def gen_cases(run, r):
             if len(gen_link.py_link(tbl[i])) <= all_limit:
                 lines.append(gen_link.case_line("lk %d" % i, ops, None))
                 kinds.append("link")
+    # many resources: uthash expands its bucket array (iteration must stay in registration order)
+    for n in ([40, 400] if quick else [40, 400, 1500, 5000]):
+        ops = [("M", n)]
+        L = len(gen_link.py_listing(ops, None))
+        wins = [(0, 64), (L // 2, 40), (L - 30, 64), (0, 0), (L, 5), (17, L), (0, L + 2)]
+        lines.append(gen_link.case_line("wk", ops, None, wins))
+        kinds.append("many")
+        lines.append(gen_link.case_line("wk", ops, b"rt=t3", [(0, 100), (L // 7, 33), (0, L)]))
+        kinds.append("many")
     return lines, kinds
 
 
